@@ -130,6 +130,8 @@ func (eng *Engine) collectEvents() {
 			walk(x.R)
 		case *EUn:
 			walk(x.X)
+		case *EParen:
+			walk(x.X)
 		case *ECond:
 			walk(x.C)
 			walk(x.A)
